@@ -331,22 +331,14 @@ def register(reg):
         fr.vars = {'self': db}
         return z_and(*[it.spec_truth(c, fr) for _n, c in DB_INV])
 
-    # comprehension over an abstract list / dict(abstract iterable)
-    from pyvc.interp import Interp
-    if not getattr(Interp, '_c14_patched', False):
-        Interp._c14_patched = True
-        orig_comp = Interp.eval_GeneratorExp
-        orig_listcomp = Interp.eval_ListComp
-
-        def comp(self, node, frame, orig=orig_listcomp):
-            if len(node.generators) == 1:
-                src = self.eval(node.generators[0].iter, frame)
-                if isinstance(src, AbsVal) and src.kind == 'abslist':
-                    return AbsVal(self.ctx.fresh_int('comp'), 'abslist')
-            return orig(self, node, frame)
-        Interp.eval_GeneratorExp = comp
-        Interp.eval_ListComp = comp
-        orig_dict = None
+    # comprehension over an abstract list / dict(abstract iterable): the interpreter evaluates the iterable once and
+    # offers it to these hooks before iterating
+    def comp_abslist(it, node, frame, src):
+        if len(node.generators) == 1 and isinstance(src, AbsVal) and src.kind == 'abslist':
+            return AbsVal(it.ctx.fresh_int('comp'), 'abslist')
+        return None
+    reg.comp_hooks = getattr(reg, 'comp_hooks', [])
+    reg.comp_hooks.append(comp_abslist)
 
     def bi_dict(it, args, kwargs, _orig=None):
         if len(args) == 1 and isinstance(args[0], AbsVal) and args[0].kind == 'abslist':
